@@ -721,7 +721,7 @@ class SFB2D(Function):
     @staticmethod
     def backward(ctx, dy):
         dlow, dhigh = None, None
-        if ctx.needs_input_grad[0]:
+        if ctx.needs_input_grad[0] or ctx.needs_input_grad[1]:
             mode = ctx.mode
             g0_row, g1_row, g0_col, g1_col = ctx.saved_tensors
             dx = afb1d(dy, g0_row, g1_row, mode=mode, dim=3)
@@ -770,7 +770,7 @@ class SFB1D(Function):
     @staticmethod
     def backward(ctx, dy):
         dlow, dhigh = None, None
-        if ctx.needs_input_grad[0]:
+        if ctx.needs_input_grad[0] or ctx.needs_input_grad[1]:
             mode = ctx.mode
             g0, g1, = ctx.saved_tensors
             dy = dy[:, :, None, :]
